@@ -5,7 +5,8 @@
    InnerPrefixes.PositionBM.SelectIndex / LeafPrefixes.PositionBM.SelectIndex, which the
    loader leaves as stored (0.5.10: word index of every 32nd set bit; today: its bit
    position) - and those are irrelevant: Select32R64, hence getNode, getLeafPrefix and every
-   query over the message, return the same with either.
+   query (Msg.v), scan (ScanMsg.v) and Stat/String computation (StatMsg.v) over the message,
+   return the same with either.
 
    Legacy510.encode_0510 T    the 0.5.10 / 0.5.11 message of T (control-byte inner prefixes,
                               old select indexes, bare Leaves.Bytes, fields 12/13/15); twin
@@ -25,7 +26,8 @@
    statement it makes.  Not in these theorems (stays with C05/C07/C16 and the correspondence):
    the protobuf/pbcmpl bytes of the section and the version dispatch of Unmarshal. *)
 From Slim Require Import Base Keys Model BitmapRank BitmapRank2 BitmapSelectProofs Bits Msg MsgProofs FlatProofs
-     Scan ScanProofs ScanMsg ScanMsgIterProofs Legacy510 Legacy510Proofs Legacy510QueryProofs Legacy510ScanProofs.
+     Scan ScanBasicProofs ScanProofs ScanMsg ScanMsgIterProofs Stat Str StatMsg
+     Legacy510 Legacy510Proofs Legacy510QueryProofs Legacy510ScanProofs Legacy510StatProofs.
 Local Open Scope N_scope.
 
 (* 1. the loaded message is today's message up to the two select indexes, never a panic *)
@@ -126,6 +128,19 @@ Theorem C06d_loaded_scans :
            (forall e incle fn, mscan_from_to fuel lfuel L vs s incl e incle withv fn = Err (EPanic 20))).
 Proof. exact loaded510_scans. Qed.
 Print Assumptions C06d_loaded_scans.
+
+(* 3c. and for what st.init() computes after the conversion and Stat() / String() read: the level
+   table, the Stat fields and the rendered lines over the loaded message are the tree's *)
+Theorem C06d_loaded_stat :
+  forall (o : opts) (keys : list key) (vals : option (list (list byte))) (T : trie) (esize : N),
+    build o keys vals = Ok T -> leaves_fixed esize T ->
+    exists Om L vs,
+      encode_0510 T = Val Om /\ load510 esize Om = Ok L /\ init_vars L = Val vs /\
+      minit_levels L = Ok (levels T) /\
+      mstat L (minit_levels L) = stat T /\
+      forall fuel, (trie_height T <= fuel)%nat -> mrender fuel L vs = render T.
+Proof. exact loaded510_stat. Qed.
+Print Assumptions C06d_loaded_stat.
 
 (* 4. the hypothesis on the leaves: it holds whenever every supplied value has esize bytes *)
 Theorem C06d_fixed_values :
